@@ -203,6 +203,11 @@ class ProgramGen:
                 self.parity = None if self.parity is None else (self.parity + n) % 2
             else:
                 args = [self.small_expr(2) for _ in range(n)]
+            if self.f.get("bare_data") and kind != "implicit" and rng.random() < 0.12:
+                # no operands at all: one zero item and a warning
+                if kind == ".byte":
+                    self.parity = None if self.parity is None else (self.parity + 1 - n) % 2
+                args = []
             self.items.append(Item(kind="dir", name=kind, args=args))
         elif k < 0.76:
             s = "".join(rng.choice("abcXYZ 019.,-") for _ in range(rng.randint(0, 7)))
